@@ -23,9 +23,9 @@ import (
 // ---- configuration model: what the TOML file says ----
 
 type zzFilterCfg struct {
-	channels              []string
-	categories, services  []string
-	hasCat, hasSvc        bool
+	channels             []string
+	categories, services []string
+	hasCat, hasSvc       bool
 }
 
 type zzPortCfg struct {
@@ -125,9 +125,11 @@ var zzRunChans []*zzRunChan
 
 type zzRunListener struct{ addrs []net.Addr }
 
-func (l *zzRunListener) Start(ctx context.Context) error { return errors.New("zz: listener does not start") }
-func (l *zzRunListener) Accept() (net.Conn, error)       { return nil, errors.New("closed") }
-func (l *zzRunListener) AddAddress(a net.Addr)           { l.addrs = append(l.addrs, a) }
+func (l *zzRunListener) Start(ctx context.Context) error {
+	return errors.New("zz: listener does not start")
+}
+func (l *zzRunListener) Accept() (net.Conn, error) { return nil, errors.New("closed") }
+func (l *zzRunListener) AddAddress(a net.Addr)     { l.addrs = append(l.addrs, a) }
 
 var zzRunL *zzRunListener
 
